@@ -38,6 +38,7 @@ def main (args : List String) : IO UInt32 := do
   | ["time"] => loopPure stdin stdout timeStep; return 0
   | ["cache"] => loopState stdin stdout cacheStep (Drand.Beacon.Cache.empty 96); return 0
   | "chain" :: _ => loopState stdin stdout chainStep (Drand.Chain.Stack.init true []); return 0
+  | ["sync"] => loopState stdin stdout syncStep ({} : SyncSt); return 0
   | ["hash"] => loopPure stdin stdout hashStep; return 0
   | ["store", backend] =>
     match storeInit backend with
